@@ -256,7 +256,7 @@ class _Tty(io.StringIO):
 
 def run_crawl(start_urls, site, seed=0, concurrent=1, extra=(), workdir=None, ports=(80,),
               jitter=True, on_request=None, on_table_event=None, max_steps=3_000_000, keep_db=None,
-              hosts_ips=None, verbose_tty=False, on_app=None):
+              hosts_ips=None, verbose_tty=False, on_app=None, relative_paths=False):
     """Run one crawl.  `site`: {host_header: {target: Page | callable}}."""
     import random
     own = workdir is None
@@ -287,6 +287,11 @@ def run_crawl(start_urls, site, seed=0, concurrent=1, extra=(), workdir=None, po
         from wpull.application.options import AppArgumentParser
         from wpull.application.builder import Builder
         argv = default_argv(start_urls, db_path, out_dir, concurrent, extra)
+        if relative_paths:
+            # the command as a user types it in the run's directory: `--database crawl.db -P out`, the output
+            # directory not made beforehand (it exists from the second run on)
+            os.chdir(workdir)
+            argv = default_argv(start_urls, os.path.relpath(db_path, workdir), 'out', concurrent, extra)
         if '--database-uri' in argv:
             # the same database file, addressed by URI (GenericSQLURLTable) instead of --database (SQLiteURLTable)
             k = argv.index('--database')
@@ -323,7 +328,8 @@ def run_crawl(start_urls, site, seed=0, concurrent=1, extra=(), workdir=None, po
         factory.new = new
         if on_app is not None:
             on_app(app, builder)       # optional hook: instrument the built application before it runs
-        os.makedirs(out_dir, exist_ok=True)
+        if not relative_paths:
+            os.makedirs(out_dir, exist_ok=True)
         os.chdir(workdir)
         done, task = loop.run_until_quiescent(app.run(), max_steps=max_steps)
         res.steps = loop.steps
